@@ -71,6 +71,10 @@ type FieldCacheEntry struct {
 }
 
 func (f *FieldCacheEntry) CanOmit(fieldVal reflect.Value) bool {
+	if !fieldVal.IsValid() {
+		// the field belongs to an inlined pointer-to-struct that is nil: it does not exist
+		return true
+	}
 	if f.isOmitEmpty && (safeIsNil(fieldVal) || isEmpty(fieldVal)) {
 		return true
 	}
@@ -81,10 +85,17 @@ func (f *FieldCacheEntry) CanOmit(fieldVal reflect.Value) bool {
 }
 
 // GetFrom returns the field identified by this FieldCacheEntry from the provided struct.
+// If the field is nested within an 'inline' pointer-to-struct that is nil, the zero
+// reflect.Value is returned (CanOmit reports true for it).
 func (f *FieldCacheEntry) GetFrom(structVal reflect.Value) reflect.Value {
 	// field might be nested within 'inline' structs
 	for _, elem := range f.fieldPath {
-		structVal = dereference(structVal).FieldByIndex(elem)
+		structVal = dereference(structVal)
+		if structVal.Kind() == reflect.Ptr {
+			// nil pointer to an inlined struct
+			return reflect.Value{}
+		}
+		structVal = structVal.FieldByIndex(elem)
 	}
 	return structVal
 }
